@@ -22,6 +22,19 @@ def queries(tier, kfs):
                                 loops=[(r'spl\.hpp:erode', 12)],
                                 bounds=dict(N=n, structure=sid, node=node, direction='single' if single else 'multi', slope_exponent=nexp, area_exponent=0.5,
                                             clause='zero erosion at self receivers and in lakes')))
+
+    # two steps on the SAME eroder with the routes changed in between (a node eroded in step 1 is a pit / has other receivers in step 2):
+    # the second result must be the direct solution on the new routes; nothing of step 1 may survive
+    rer = [(1, 1, 3, 2, 1, 1, (1, 2)), (2, 2, 4, 2, 1, 0, (3,))]
+    if tier != 'quick':
+        rer += [(2, 2, 4, 2, 1, 0, (1,)), (3, 3, 4, 2, 0, 0, (3, 2))]
+    for (rid, sid, n, d, single, kscalar, nodes) in rer:
+        for node in nodes:
+            qs.append(Query('erode_rerouted.struct%d.to%d.node%d' % (sid, rid, node), 'spl.cpp', 'c13_erode.c', dict(FSV_N=n, FSV_D=d, FSV_SINGLE=single),
+                            dict(N=n, D=d, SINGLE=single, STRUCT=sid, REROUTE=rid, K_SCALAR=kscalar, ROUNDS=2, ONLY_NODE=node, MEXP='1.0', FSV_POW_SEQ=1),
+                            unwind=max(16, n * (d + 1) + 3), solver='race', timeout=1200 if tier == 'quick' else 7200,
+                            bounds=dict(N=n, structure=sid, rerouted_to=rid, node=node, direction='single' if single else 'multi', steps=2,
+                                        symbolic='elevation (both steps), area, K, dt, weights, distances')))
     qs.append(Query('reject_nonlinear_on_multi', 'spl.cpp', 'c13_linear.c', dict(FSV_N=3, FSV_D=2, FSV_SINGLE=0), dict(SINGLE=0), unwind=16,
                     bounds=dict(n='every non-NaN binary64', graph='multi')))
     return qs
